@@ -109,7 +109,8 @@ func (s *State) close() {
 type StateTable [65535]*State
 
 // Add adds the state into the table.
-func (st *StateTable) Add(state *State) {
+// Add stores the state in a free or inactive slot; it reports false when the table is full.
+func (st *StateTable) Add(state *State) bool {
 	for i := range *st {
 		if (*st)[i] == nil {
 			// slot not taken
@@ -120,7 +121,7 @@ func (st *StateTable) Add(state *State) {
 		}
 
 		(*st)[i] = state
-		return
+		return true
 	}
 
 	now := time.Now()
@@ -133,12 +134,12 @@ func (st *StateTable) Add(state *State) {
 		}
 
 		(*st)[i] = state
-		return
+		return true
 	}
 
 	// we don't have enough space in the state table, and
 	// there are no inactive entries
-	panic("Statetable full")
+	return false
 }
 
 // Get will return the state for the ip, port combination
